@@ -329,6 +329,31 @@ async def run_payloads(backend, urls_kind, counters, seed):
                     viols.append({"key": "sequence/verified-id-and-sig-reused-under-another-pubkey",
                                   "msg": "[%s/%s] after P2 authenticated honestly, an AUTH naming P1 as pubkey but carrying the id and sig of P2's answer made the connection %s" % (backend, urls_kind, got),
                                   "replay": {"backend": backend, "urls": urls_kind, "label": "seq:verified-id-reused"}})
+        # ---- the victim's own verified id and signature around REWRITTEN tags: the fields that were signed are
+        # not the fields presented (challenge of the attacker's connection, refreshed created_at, other relay)
+        counters["sequences"] = counters.get("sequences", 0) + 1
+        connv, chv = await fresh_conn("v-genuine")
+        genuine = ref.make_event(p1, kind=22242, created_at=NOW, tags=[["relay", url], ["challenge", chv]], content="")
+        await connv.cmd(["AUTH", genuine])
+        if await identity_of(rig, connv, p1, 500001) == "P1":
+            for vi, variant in enumerate(("challenge-rewritten", "challenge-and-created_at-rewritten", "tags-reordered-challenge-rewritten", "content-added-challenge-rewritten")):
+                connz, chz = await fresh_conn("z-" + variant)
+                forged = dict(genuine, tags=[["relay", url], ["challenge", chz]])
+                if variant == "challenge-and-created_at-rewritten":
+                    forged["created_at"] = NOW + 30
+                elif variant == "tags-reordered-challenge-rewritten":
+                    forged["tags"] = [["challenge", chz], ["relay", url]]
+                elif variant == "content-added-challenge-rewritten":
+                    forged["content"] = "x"
+                await connz.cmd(["AUTH", forged])
+                await rig.quiesce()
+                got = "anon" if connz.exited else await identity_of(rig, connz, p1, 500010 + vi)
+                nontrivial.append(h([urls_kind, "seq", "verified-sig-reused", variant]))
+                bump(pc, "must_refuse")
+                if got != "anon":
+                    viols.append({"key": "sequence/verified-id-and-sig-around-rewritten-tags",
+                                  "msg": "[%s/%s] after P1 authenticated honestly on one connection, the same id, pubkey and sig around a rewritten challenge tag (%s) made ANOTHER connection %s" % (backend, urls_kind, variant, got),
+                                  "replay": {"backend": backend, "urls": urls_kind, "label": "seq:verified-sig-reused"}})
         # ---- challenge provenance ---------------------------------------------------------------------
         counters["challenges_checked"] = counters.get("challenges_checked", 0) + len(chs)
         issued_vals = [v for _, v in issued]
